@@ -37,6 +37,7 @@ def main():
         shutil.copy(os.path.join(src, f), os.path.join(dst, f))
     wt = "/tmp/seedwt_%s_%d" % (name, os.getpid())
     sh("git -C /repo worktree add -q --detach %s HEAD" % wt)
+    old = json.load(open(os.path.join(dst, "meta.json"))) if os.path.exists(os.path.join(dst, "meta.json")) else {}
     out = dict(property=prop, name=name, source="independent sub-agent given only the property text", summary=meta_src.get("summary"), needs=meta_src.get("needs"), files=meta_src.get("files"), repo_commit=sh("git -C /repo rev-parse --short HEAD").stdout.strip())
     try:
         env = dict(os.environ, PYTHONPATH=wt, MPLBACKEND="Agg")
@@ -55,6 +56,10 @@ def main():
             out["suite_tail"] = rs.stdout.strip()[-300:]
             out["suite_passed"] = " passed" in rs.stdout and "failed" not in rs.stdout and "error" not in rs.stdout.lower()
             out["suite_wall_s"] = round(time.time() - t0)
+        else:
+            for k in ("suite_tail", "suite_passed", "suite_wall_s"):
+                if k in old:
+                    out[k] = old[k]
         out["checks"] = {}
         for p in props or [prop]:
             t0 = time.time()
